@@ -9,7 +9,7 @@ TRANSLATORS = {
     "translate_math": ["MathTables.v"],                       # C01/C04: supportedMathMLElements
     "translate_rules": ["RuleTable.v", "IssueSites.v"],       # C15
     "translate_units": ["UnitTables.v", "PrefixTable.v"],     # C08
-    "translate_profile": ["AstTypes.v", "ProfileStrings.v"],  # C03/C17
+    "translate_profile": ["AstTypes.v", "ProfileStrings.v", "ProfileMembers.v"],  # C03/C17
     "translate_iface": ["IfaceTable.v"],                      # C19: interfaceTypeToString, InterfaceType, permitsInterfaceType literals
     "translate_global": ["GlobalSites.v"],                    # C12: writers of process-global state, issue-list resets of the entry points
 }
